@@ -23,7 +23,7 @@ def setup(c):
         "stage/release/cleanup/commit/rollback (model output == implementation output, incl. the (generation, mutations) each "
         "flush call receives and the regions that get a ResolveLock), property ops chk-read/chk-bget (read = latest write at any "
         "tier), chk-flush (each mutation handed to exactly one flush, generations 1,2,3…, at most one flush function running), "
-        "flush/flushwait/commit (a failed flush of any kind — plain error, or an ErrKeyExist chain for a key inside/outside the flushed batch — is reported: FAIL flush-error-swallowed / lost-flush-error otherwise; the error handed back is the translation handleAlreadyExistErr makes), chk-answer (commit point: the primary Commit request is scripted — executed with the answer lost / lost before execution / definite key error / answered — and Commit's answer, classified nil / undetermined / other, must not contradict the store tier's outcome for the primary: FAIL answer-contradicts-outcome / answer-nil-not-committed), chk-tier (every read goes through the pipelined buffer, so none may reach the store as a plain snapshot Get/BatchGet at the transaction's start ts — FAIL tier-dropped; txntier cases: committed data under the keys (reset tokens c:<k>=<v>), writes fully flushed, `split` of the region between flushed keys in the mock cluster only (stale region cache), `buferr notleader|busy` on the next BufferBatchGet, then chk-bget / chk-read), chk-range (every key sent in a Flush request lies in [pipelinedStart,pipelinedEnd) as the real committer holds them, read through an add-only export), chk-covered (after commit / rollback / the cleanup of a failed commit every flushed key reaches the primary's outcome: it is the committed primary or its region got the ResolveLock, i.e. no lock of the transaction is left). "
+        "flush/flushwait/commit (a failed flush of any kind — plain error, or an ErrKeyExist chain for a key inside/outside the flushed batch — is reported: FAIL flush-error-swallowed / lost-flush-error otherwise; the error handed back is the translation handleAlreadyExistErr makes), chk-answer (commit point: the primary Commit request is scripted — executed with the answer lost / lost before execution / definite key error / answered — and Commit's answer, classified nil / undetermined / other, must not contradict the store tier's outcome for the primary: FAIL answer-contradicts-outcome / answer-nil-not-committed), chk-tier (every read goes through the pipelined buffer, so none may reach the store as a plain snapshot Get/BatchGet at the transaction's start ts — FAIL tier-dropped; txntier cases: committed data under the keys (reset tokens c:<k>=<v>), writes fully flushed, `split` of the region between flushed keys in the mock cluster only (stale region cache), `buferr notleader|busy` on the next BufferBatchGet, then chk-bget / chk-read), `splitonresolve <key>` (the store splits the region holding the key when the first ResolveLock for it arrives — after the range task was cut, before the request is served: the handler must re-locate and walk on to the end of its task; judged by chk-covered), chk-range (every key sent in a Flush request lies in [pipelinedStart,pipelinedEnd) as the real committer holds them, read through an add-only export), chk-covered (after commit / rollback / the cleanup of a failed commit every flushed key reaches the primary's outcome: it is the committed primary or its region got the ResolveLock, i.e. no lock of the transaction is left). "
         "bare world: real PipelinedMemDB + scripted flush function + harness remote buffer; txn world: real pipelined KVTxn on "
         "mocktikv with Flush/BufferBatchGet/Commit/Broadcast answered by the harness (mocktikv lacks these RPCs), real flush "
         "callback, Commit/Rollback, resolveFlushedLocks, RunOnRange, resolve handler. Thresholds through the existing failpoints; "
